@@ -3,6 +3,11 @@
 // Contracts for package multiplex, checked by /verif/govc. Comment-only.
 package multiplex
 
+// what no function of the receive/send paths changes (fixed at construction): used in preserves clauses
+//@ define SKEEP Frame.StreamID, Frame.Seq, Frame.Closing, Frame.Payload, Stream.id, Stream.session, Stream.recvBuf, Session.sb, SessionConfig.MsgOnWireSizeLimit, Session.maxStreamUnitWrite, Session.streamSendBufferSize, Session.connReceiveBufferSize, SessionConfig.Unordered, SessionConfig.Valve, SessionConfig.Singleplex, Obfuscator.payloadCipher, switchboard.session, switchboard.valve, heap(B_Slice)
+// the same without the frame templates of streams (a close rewrites the closing stream's template)
+//@ define PKEEP Frame.StreamID, Stream.id, Stream.session, Stream.recvBuf, Session.sb, SessionConfig.MsgOnWireSizeLimit, Session.maxStreamUnitWrite, Session.streamSendBufferSize, Session.connReceiveBufferSize, SessionConfig.Unordered, SessionConfig.Valve, SessionConfig.Singleplex, Obfuscator.payloadCipher, switchboard.session, switchboard.valve, heap(B_Slice)
+
 // ---------------------------------------------------------------------------------------------
 // Frame codec (C04, C11, C10, C13). Cloak v2 frame layout, written from the documented format:
 //   bytes 0..3  StreamID (big endian)      bytes 4..11 Seq (big endian)
@@ -518,17 +523,14 @@ package multiplex
 // AddConnection hands the connection to the switchboard (its receive goroutine is not followed here);
 // the caller's configuration objects are not touched (assumed; see C01 for addConn itself).
 //@ func (*Session).AddConnection
-//@   requires closable(sesh) && conn != nil
+//@   requires closable(sesh)
 //@   ensures handedOver: called("(*switchboard).addConn")
 //@   modifies *
-//@   preserves heap(F_server.State.Panel), heap(F_server.State.AdminUID), heap(F_server.State.ProxyBook)
+//@   preserves heap(F_server.State.Panel), heap(F_server.State.AdminUID), heap(F_server.State.ProxyBook), $SKEEP
 
 // ---------------------------------------------------------------------------------------------
 // Receive path (C11 "dropped without effect, later frames still processed"; C12 teardown on read error)
 // ---------------------------------------------------------------------------------------------
-//@ define SKEEP Frame.StreamID, Frame.Seq, Frame.Closing, Frame.Payload, Stream.id, Stream.session, Stream.recvBuf, Session.sb, SessionConfig.MsgOnWireSizeLimit, Session.maxStreamUnitWrite, Session.streamSendBufferSize, Session.connReceiveBufferSize, SessionConfig.Unordered, SessionConfig.Valve, SessionConfig.Singleplex, Obfuscator.payloadCipher, switchboard.session, switchboard.valve, heap(B_Slice)
-// the same without the frame templates of streams (a close rewrites the closing stream's template)
-//@ define PKEEP Frame.StreamID, Stream.id, Stream.session, Stream.recvBuf, Session.sb, SessionConfig.MsgOnWireSizeLimit, Session.maxStreamUnitWrite, Session.streamSendBufferSize, Session.connReceiveBufferSize, SessionConfig.Unordered, SessionConfig.Valve, SessionConfig.Singleplex, Obfuscator.payloadCipher, switchboard.session, switchboard.valve, heap(B_Slice)
 // constructors: a new pipe has its condition variable (with its own mutex) and an empty buffer, is open
 // and has no deadline; a new stream buffer expects sequence number 0 first and has nothing parked; a new
 // stream is open, carries the id it was made for in every frame it will send, starts at sequence number
@@ -610,7 +612,7 @@ package multiplex
 // deplex: the receive loop of one connection ends only after a failed Read (and then tears the session
 // down); an undecodable or rejected message never ends it.
 //@ func (*switchboard).deplex
-//@   requires sb != nil && closable(sb.session) && sb.valve != nil && conn != nil && holdsNone() && sb.session.connReceiveBufferSize >= 0
+//@   requires sb != nil && closable(sb.session) && sb.valve != nil && holdsNone() && sb.session.connReceiveBufferSize >= 0
 //@   ensures endsOnlyOnReadError: called("(*Session).passiveClose") && closedconn(conn)
 //@   # C19: what is received is paced and counted on the UPLOAD (rx) side, for the number of bytes read
 //@   atcall rxWait requires whatWasRead: arg0.(int) == n
@@ -675,10 +677,11 @@ package multiplex
 // addConn (C01 "a healthy session keeps working"): the connection is stored before the count that makes
 // its id eligible for pickRandConn is published.
 //@ func (*switchboard).addConn
-//@   requires sb != nil && conn != nil && closable(sb.session) && sb.valve != nil
+//@   requires sb != nil && closable(sb.session) && sb.valve != nil
 //@   atcall AddUint32 requires storedBeforePublished: called("(*sync.Map).LoadOrStore")
-//@   flag noframe
-//@   loop 0 invariant live: sb != nil && conn != nil && closable(sb.session) && sb.valve != nil
+//@   modifies *
+//@   preserves $SKEEP
+//@   loop 0 invariant live: sb != nil && closable(sb.session) && sb.valve != nil
 
 // ---------------------------------------------------------------------------------------------
 // C12: stream count bookkeeping and the inactivity timer
